@@ -57,21 +57,25 @@ def main():
     ok = all(confirmed.values())
     results = {}
     if ok:
-        if sh("git -C /repo status --porcelain")[1].strip():
-            print("REFUSING: /repo not clean"); return 2
-        rc, out = sh("git -C /repo apply %s || git -C /repo apply -3 %s" % (patch, patch))
+        # the checks run against a scratch worktree with the patch applied (VERIF_REPO_OVERRIDE),
+        # never against /repo itself
+        wt2 = "/tmp/seedrun-%d" % os.getpid()
+        rc, out = sh("git -C /repo worktree add -q --detach %s HEAD" % wt2)
         try:
+            rc, out = sh("git apply %s || git apply -3 %s" % (patch, patch), cwd=wt2)
+            scratch = "/tmp/seedrun-%d-out" % os.getpid()
+            env = dict(ENV, VERIF_SEED=os.environ.get("VERIF_SEED", "1"), VERIF_REPO_OVERRIDE=wt2, VERIF_EVIDENCE_DIR=scratch + "/evidence", VERIF_FAILURES_DIR=scratch + "/failures")
             for pid in ids:
                 t0 = time.time()
-                rc, out = sh("./check %s --tier %s" % (pid, tier), cwd=VERIF, env=dict(ENV, VERIF_SEED=os.environ.get("VERIF_SEED", "1")))
+                rc, out = sh("./check %s --tier %s" % (pid, tier), cwd=VERIF, env=env)
                 verdict = {0: "MISSED", 1: "CAUGHT", 2: "INCONCLUSIVE"}.get(rc, "rc=%d" % rc)
                 lines = [l for l in out.strip().splitlines() if l.strip()]
                 first = lines[0][:400] if lines else ""
                 results[pid] = {"verdict": verdict, "wall_s": round(time.time() - t0, 1), "first_line": first if verdict != "MISSED" else lines[-1]}
                 print("%-12s %s  %s  (%.1fs) %s" % (verdict, pid, name, time.time() - t0, results[pid]["first_line"][:300]))
         finally:
-            sh("git -C /repo reset -q --hard HEAD && git -C /repo clean -fdq")
-            sh("git checkout -- evidence 2>/dev/null", cwd=VERIF)
+            sh("git -C /repo worktree remove --force %s" % wt2)
+            shutil.rmtree(scratch, ignore_errors=True)
     out_dir = os.path.join(VERIF, "seeded", name)
     if ok:
         os.makedirs(out_dir, exist_ok=True)
